@@ -269,7 +269,7 @@ def _worker(args):
             if bad:
                 out.update(verdict="bounded-fail", failed=bad[0].get("failed", []), values=bad[0]["inputs"],
                            exc=bad[0].get("exc"), tb=bad[0].get("tb"), witnesses=bad[0].get("witnesses", {}))
-            elif all(r["status"] == "rejected" for r in conc):
+            elif conc and all(r["status"] == "rejected" for r in conc):
                 out.update(verdict="vacuous", reason="every sample rejected by the precondition")
             else:
                 out["verdict"] = "bounded-pass"
